@@ -5,11 +5,15 @@ import json, os
 R = os.path.dirname(os.path.dirname(os.path.abspath(__file__)))
 d = os.path.join(R, "tools", "manifest")
 checks = []
+# only properties the integrator has accepted (builders drop their entry files here while still working)
+integrated = set(json.load(open(os.path.join(d, "_integrated.json"))))
 for f in sorted(os.listdir(d)):
     if f.startswith("_") or not f.endswith(".json"):
         continue
     e = json.load(open(os.path.join(d, f)))
     pid = e["property_id"]
+    if pid not in integrated:
+        continue
     e.setdefault("quick_cmd", "./check %s --tier quick" % pid)
     e.setdefault("thorough_cmd", "./check %s --tier thorough" % pid)
     e.setdefault("evidence_file", "evidence/%s.json" % pid)
@@ -36,7 +40,7 @@ json.dump(m, open(os.path.join(R, "MANIFEST.json"), "w"), indent=1)
 kn, fx = [], []
 kd = os.path.join(R, "known")
 for f in sorted(os.listdir(kd)) if os.path.isdir(kd) else []:
-    if f.endswith(".json"):
+    if f.endswith(".json") and f[:-5] in integrated:
         k = json.load(open(os.path.join(kd, f)))
         pid = f[:-5]
         kn += [dict(x, property=pid) for x in k.get("known", [])]
